@@ -83,16 +83,17 @@ theorem minv_crashMarks (cfg : Cfg) (ms : MsgSt) (c : Ch) (rs : List Rec) (marks
 theorem inv_volatile (cfg : Cfg) (s s' : St) (h : Inv cfg s) (htab : s'.tab = s.tab)
     (hmay : ∀ x ∈ s'.mayMark, x ∈ s.mayMark) (hclean : s'.clean = s.clean) : Inv cfg s' := by
   have hmsg : ∀ k, s'.msg k = s.msg k := by intro k; simp [St.msg, htab]
-  refine ⟨fun k => by rw [hmsg]; exact h.msgs k, ?_, ?_⟩
+  refine ⟨fun k => by rw [hmsg]; exact h.msgs k, ?_, ?_, ?_⟩
   · intro m c i hm; rw [hmsg]; exact h.may m c i (hmay _ hm)
   · intro m hc; rw [hmsg]; rw [hclean] at hc; exact h.ready m hc
+  · intro m hc; rw [hmsg]; rw [hclean] at hc; exact h.foop m hc
 
 theorem reportK_inv (cfg : Cfg) (s1 : St) (m : Nat) (c : Ch) (idx : Nat) (h1 : Inv cfg s1) (hc : s1.clean = none) :
     Inv cfg { (s1.upd m fun ms => { ms with fin := (c, idx) :: ms.fin, delivered := (c, idx) :: ms.delivered })
               with mayMark := (m, c, idx) :: s1.mayMark } := by
   have h2 := inv_upd_grow cfg s1 m (fun ms => { ms with fin := (c, idx) :: ms.fin, delivered := (c, idx) :: ms.delivered })
     h1 hc (minv_reportK cfg _ (c, idx) (h1.msgs m)) (fun x hx => List.mem_cons_of_mem _ hx)
-  refine ⟨fun k => h2.msgs k, ?_, fun m' hcl => h2.ready m' hcl⟩
+  refine ⟨fun k => h2.msgs k, ?_, fun m' hcl => h2.ready m' hcl, fun m' hcl => h2.foop m' hcl⟩
   intro m' c' i hm
   have hm' : (m', c', i) ∈ (m, c, idx) :: s1.mayMark := hm
   rcases List.mem_cons.1 hm' with he | hm''
@@ -147,7 +148,7 @@ theorem appendBounce_inv (cfg : Cfg) (s : St) (m : Nat) (n : Note) (bs : Bytes) 
     Inv cfg { (s.upd m (bounceUpd n bs)) with notes := s.notes.erase n, mayMark := (m, n.c, n.idx) :: s.mayMark } := by
   have h2 := inv_upd_grow cfg s m (bounceUpd n bs) h hc (minv_appendBounce cfg _ (n.c, n.idx) bs (h.msgs m) hi)
     (fun x hx => List.mem_cons_of_mem _ hx)
-  refine ⟨fun k => h2.msgs k, ?_, fun m' hcl => h2.ready m' hcl⟩
+  refine ⟨fun k => h2.msgs k, ?_, fun m' hcl => h2.ready m' hcl, fun m' hcl => h2.foop m' hcl⟩
   intro m' c' i hm
   have hm' : (m', c', i) ∈ (m, n.c, n.idx) :: s.mayMark := hm
   rcases List.mem_cons.1 hm' with he | hm''
@@ -173,40 +174,9 @@ theorem fin_setChan (ms : MsgSt) (c : Ch) (v : Option (List Rec)) : (ms.setChan 
 theorem fin_setChanSynced (ms : MsgSt) (c : Ch) (v : Bool) : (ms.setChanSynced c v).fin = ms.fin := (setChanSynced_rest ms c v).2.2.2.1
 
 /-- todo-context events keep everything the invariant needs (channel files and info may change freely) -/
-theorem inv_todo_ctx (cfg : Cfg) (s : St) (m : Nat) (f : MsgSt → MsgSt) (hinv : Inv cfg s) (hclean : s.clean = none)
-    (ht : (s.msg m).todo.isSome = true)
-    (e1 : (f (s.msg m)).todo = (s.msg m).todo) (e2 : (f (s.msg m)).accepted = (s.msg m).accepted)
-    (e3 : (f (s.msg m)).fin = (s.msg m).fin) (e4 : (f (s.msg m)).delivered = (s.msg m).delivered)
-    (e5 : (f (s.msg m)).noted = (s.msg m).noted) (e6 : (f (s.msg m)).inFile = (s.msg m).inFile)
-    (e7 : (f (s.msg m)).bounced = (s.msg m).bounced) (e8 : (f (s.msg m)).discarded = (s.msg m).discarded)
-    (e9 : (f (s.msg m)).lost = (s.msg m).lost) (e10 : (f (s.msg m)).bounce = (s.msg m).bounce) : Inv cfg (s.upd m f) :=
-  inv_upd_grow cfg s m f hinv hclean (minv_todo_ctx cfg _ _ (hinv.msgs m) ht e1 e2 e3 e4 e5 e6 e7 e8 e9 e10)
-    (fun x hx => by rw [e3]; exact hx)
-
-/-- the two states agree on the envelope and on the ghost history -/
-structure SameGhost (ms ms' : MsgSt) : Prop where
-  e1 : ms'.todo = ms.todo
-  e2 : ms'.accepted = ms.accepted
-  e3 : ms'.fin = ms.fin
-  e4 : ms'.delivered = ms.delivered
-  e5 : ms'.noted = ms.noted
-  e6 : ms'.inFile = ms.inFile
-  e7 : ms'.bounced = ms.bounced
-  e8 : ms'.discarded = ms.discarded
-  e9 : ms'.lost = ms.lost
-  e10 : ms'.bounce = ms.bounce
-
-theorem SameGhost.setChan (ms : MsgSt) (c : Ch) (v : Option (List Rec)) : SameGhost ms (ms.setChan c v) := by
-  cases c <;> constructor <;> rfl
-theorem SameGhost.setChanSynced (ms : MsgSt) (c : Ch) (v : Bool) : SameGhost ms (ms.setChanSynced c v) := by
-  cases c <;> constructor <;> rfl
-theorem SameGhost.trans {a b c : MsgSt} (h1 : SameGhost a b) (h2 : SameGhost b c) : SameGhost a c :=
-  ⟨h2.e1.trans h1.e1, h2.e2.trans h1.e2, h2.e3.trans h1.e3, h2.e4.trans h1.e4, h2.e5.trans h1.e5, h2.e6.trans h1.e6,
-   h2.e7.trans h1.e7, h2.e8.trans h1.e8, h2.e9.trans h1.e9, h2.e10.trans h1.e10⟩
-
 theorem inv_todo_ctx' (cfg : Cfg) (s : St) (m : Nat) (f : MsgSt → MsgSt) (hinv : Inv cfg s) (hclean : s.clean = none)
     (ht : (s.msg m).todo.isSome = true) (g : SameGhost (s.msg m) (f (s.msg m))) : Inv cfg (s.upd m f) :=
-  inv_todo_ctx cfg s m f hinv hclean ht g.e1 g.e2 g.e3 g.e4 g.e5 g.e6 g.e7 g.e8 g.e9 g.e10
+  inv_upd_grow cfg s m f hinv hclean (minv_todo_ctx cfg _ _ (hinv.msgs m) ht g) (fun x hx => by rw [g.e3]; exact hx)
 
 theorem step_inv (cfg : Cfg) (s s' : St) (e : Ev) (hinv : Inv cfg s) (hacc : accept cfg s e = some s') : Inv cfg s' := by
   cases e with
@@ -218,8 +188,9 @@ theorem step_inv (cfg : Cfg) (s s' : St) (e : Ev) (hinv : Inv cfg s) (hacc : acc
   | restart =>
     simp only [accept] at hacc
     cases hacc
-    refine ⟨fun k => hinv.msgs k, ?_, ?_⟩
+    refine ⟨fun k => hinv.msgs k, ?_, ?_, ?_⟩
     · intro m c i hm; simp at hm
+    · intro m hc; simp at hc
     · intro m hc; simp at hc
   | utimes m c t =>
     simp only [accept] at hacc
@@ -230,8 +201,9 @@ theorem step_inv (cfg : Cfg) (s s' : St) (e : Ev) (hinv : Inv cfg s) (hacc : acc
     simp only [accept] at hacc
     split at hacc
     · cases hacc
-      refine ⟨fun k => hinv.msgs k, fun m c i hm => hinv.may m c i hm, ?_⟩
-      intro m hc; simp at hc
+      refine ⟨fun k => hinv.msgs k, fun m c i hm => hinv.may m c i hm, ?_, ?_⟩
+      · intro m hc; simp at hc
+      · intro m hc; simp at hc
     · cases hacc
   | rbytes c bs =>
     simp only [accept] at hacc
@@ -241,7 +213,7 @@ theorem step_inv (cfg : Cfg) (s s' : St) (e : Ev) (hinv : Inv cfg s) (hacc : acc
       cases hacc
       have hclean := clean_none_of s hcl
       have h0 : Inv cfg { s with mayMark := [], notes := [] } := by
-        refine ⟨fun k => hinv.msgs k, ?_, fun m hc => hinv.ready m hc⟩
+        refine ⟨fun k => hinv.msgs k, ?_, fun m hc => hinv.ready m hc, fun m hc => hinv.foop m hc⟩
         intro m c' i hm; simp at hm
       exact feedReports_inv cfg c bs _ h0 hclean
   | cmd c delnum m pos recip =>
@@ -254,41 +226,35 @@ theorem step_inv (cfg : Cfg) (s s' : St) (e : Ev) (hinv : Inv cfg s) (hacc : acc
         · cases hacc
         · split at hacc
           · cases hacc
-            refine ⟨fun k => hinv.msgs k, ?_, fun m hc => hinv.ready m hc⟩
+            refine ⟨fun k => hinv.msgs k, ?_, fun m hc => hinv.ready m hc, fun m hc => hinv.foop m hc⟩
             intro m' c' i hm; simp at hm
           · cases hacc
   | creatInfo m =>
     simp only [accept] at hacc
     split at hacc
     · rename_i hg; cases hacc
-      exact inv_todo_ctx cfg s m _ hinv (by simpa using hg.1) hg.2.1 rfl rfl rfl rfl rfl rfl rfl rfl rfl rfl
+      exact inv_todo_ctx' cfg s m _ hinv (by simpa using hg.1) hg.2.1 (by constructor <;> rfl)
     · cases hacc
   | writeInfo m bs =>
     simp only [accept] at hacc
     split at hacc
     · split at hacc
       · rename_i hg; cases hacc
-        exact inv_todo_ctx cfg s m _ hinv (by simpa using hg.1) hg.2 rfl rfl rfl rfl rfl rfl rfl rfl rfl rfl
+        exact inv_todo_ctx' cfg s m _ hinv (by simpa using hg.1) hg.2 (by constructor <;> rfl)
       · cases hacc
     · cases hacc
   | fsyncInfo m =>
     simp only [accept] at hacc
     split at hacc
     · rename_i hg; cases hacc
-      exact inv_todo_ctx cfg s m _ hinv (by simpa using hg.1) hg.2.1 rfl rfl rfl rfl rfl rfl rfl rfl rfl rfl
+      exact inv_todo_ctx' cfg s m _ hinv (by simpa using hg.1) hg.2.1 (by constructor <;> rfl)
     · cases hacc
   | creatChan m c =>
     simp only [accept] at hacc
     split at hacc
     · rename_i hg; cases hacc
-      have r := setChan_rest (s.msg m) c (some [])
-      have r2 := setChanSynced_rest ((s.msg m).setChan c (some [])) c false
-      exact inv_todo_ctx cfg s m _ hinv (by simpa using hg.1) hg.2.1
-        (by rw [r2.1, r.1]) (by rw [r2.2.2.2.2.2.2.2.2.2.2.1, r.2.2.2.2.2.2.2.2.2.2.1])
-        (by rw [r2.2.2.2.1, r.2.2.2.1]) (by rw [r2.2.2.2.2.1, r.2.2.2.2.1]) (by rw [r2.2.2.2.2.2.1, r.2.2.2.2.2.1])
-        (by rw [r2.2.2.2.2.2.2.1, r.2.2.2.2.2.2.1]) (by rw [r2.2.2.2.2.2.2.2.1, r.2.2.2.2.2.2.2.1])
-        (by rw [r2.2.2.2.2.2.2.2.2.1, r.2.2.2.2.2.2.2.2.1]) (by rw [r2.2.2.2.2.2.2.2.2.2.1, r.2.2.2.2.2.2.2.2.2.1])
-        (by rw [r2.2.2.1, r.2.2.1])
+      exact inv_todo_ctx' cfg s m _ hinv (by simpa using hg.1) hg.2.1
+        ((SameGhost.setChan _ c _).trans (SameGhost.setChanSynced _ c false))
     · cases hacc
   | writeChan m c bs =>
     simp only [accept] at hacc
@@ -349,7 +315,10 @@ theorem step_inv (cfg : Cfg) (s s' : St) (e : Ev) (hinv : Inv cfg s) (hacc : acc
       · split at hacc
         · rename_i hg2; cases hacc
           exact inv_upd_grow cfg s m _ hinv hclean
-            (minv_unlinkInfo_done cfg _ (hinv.msgs m) (by simpa using hg2.1) (by simpa using hg2.2.1) (by simpa using hg2.2.2))
+            (minv_unlinkInfo_done cfg _ (hinv.msgs m) (by simpa using hg2.1) (by simpa using hg2.2.1) (by simpa using hg2.2.2)
+              (by cases h : (s.msg m).todo with
+                  | none => rfl
+                  | some x => rename_i ht; simp [h] at ht))
             (fun x hx => hx)
         · cases hacc
   | markD m c pos =>
@@ -380,7 +349,7 @@ theorem step_inv (cfg : Cfg) (s s' : St) (e : Ev) (hinv : Inv cfg s) (hacc : acc
       · split at hacc
         · cases hacc
           exact inv_upd_grow cfg s m _ hinv hclean
-            (minv_congr cfg _ _ (hinv.msgs m) rfl rfl rfl rfl rfl rfl rfl rfl rfl rfl rfl rfl rfl rfl rfl) (fun x hx => hx)
+            (minv_congr cfg _ _ (hinv.msgs m) (by constructor <;> rfl) rfl rfl rfl rfl rfl) (fun x hx => hx)
         · cases hacc
       · cases hacc
   | unlinkBounce m =>
@@ -390,10 +359,16 @@ theorem step_inv (cfg : Cfg) (s s' : St) (e : Ev) (hinv : Inv cfg s) (hacc : acc
     · rename_i hcl
       have hclean := clean_none_of s hcl
       split at hacc
-      · split at hacc
-        · split at hacc
-          · cases hacc
-            exact inv_upd_grow cfg s m _ hinv hclean (minv_unlinkBounce_discard cfg _ (hinv.msgs m)) (fun x hx => hx)
+      · rename_i info _ hinfo _
+        split at hacc
+        · rename_i hg3
+          split at hacc
+          · rename_i hs; cases hacc
+            have htn : (s.msg m).todo = none := by
+              cases h : (s.msg m).todo with
+              | none => rfl
+              | some x => have := hg3.1; simp [h] at this
+            exact inv_upd_grow cfg s m _ hinv hclean (minv_unlinkBounce_discard cfg _ (hinv.msgs m) htn info hinfo hs) (fun x hx => hx)
           · split at hacc
             · cases hacc
               exact inv_upd_grow cfg s m _ hinv hclean (minv_unlinkBounce_ok cfg _ (hinv.msgs m)) (fun x hx => hx)
@@ -416,7 +391,7 @@ theorem step_inv (cfg : Cfg) (s s' : St) (e : Ev) (hinv : Inv cfg s) (hacc : acc
     split at hacc
     · rename_i hg; cases hacc
       exact inv_upd_grow cfg s m _ hinv (by simpa using hg.1)
-        (minv_crashBounce cfg _ content (hinv.msgs m) hg.2.2) (fun x hx => hx)
+        (minv_crashBounce cfg _ content (hinv.msgs m) (hg.2.2.elim Or.inl (fun h => Or.inr ⟨h.1, h.2.1⟩))) (fun x hx => hx)
     · cases hacc
   | appendBounce m bs =>
     simp only [accept] at hacc
@@ -438,26 +413,33 @@ theorem step_inv (cfg : Cfg) (s s' : St) (e : Ev) (hinv : Inv cfg s) (hacc : acc
       have hclean : s.clean = none := by simpa using hg.1
       refine inv_upd cfg s m (fun _ => freshMsg sender rcpts) _
         (fun k => by show (s.upd m (fun _ => freshMsg sender rcpts)).msg k = _; exact St.msg_upd s m k _)
-        hinv (minv_newmsg cfg sender rcpts) ?_ ?_
+        hinv (minv_newmsg cfg sender rcpts) ?_ ?_ ?_
       · intro m' c i hm; simp at hm
       · intro m' hc
         have : s.clean = some (.todo m') := hc
+        rw [hclean] at this; cases this
+      · intro m' hc
+        have : s.clean = some (.foop m') := hc
         rw [hclean] at this; cases this
     · cases hacc
   | cUnlinkMess m =>
     simp only [accept] at hacc
     split at hacc
     · split at hacc
-      · cases hacc
-        refine inv_upd cfg s m (fun ms => { ms with mess := false }) _
-          (fun k => by show (s.upd m (fun ms => { ms with mess := false })).msg k = _; exact St.msg_upd s m k _) hinv
-          (minv_congr cfg _ _ (hinv.msgs m) rfl rfl rfl rfl rfl rfl rfl rfl rfl rfl rfl rfl rfl rfl rfl) ?_ ?_
+      · rename_i k hcl hk
+        subst hk
+        cases hacc
+        have hf := hinv.foop k hcl
+        refine inv_upd cfg s k (fun ms => { ms with mess := false }) _
+          (fun k' => by show (s.upd k (fun ms => { ms with mess := false })).msg k' = _; exact St.msg_upd s k k' _) hinv
+          (minv_unlinkMess cfg _ (hinv.msgs k) hf.1 hf.2) ?_ ?_ ?_
         · intro m' c i hm
           have h0 := hinv.may m' c i hm
-          show (c, i) ∈ ((s.upd m (fun ms => { ms with mess := false })).msg m').fin
+          show (c, i) ∈ ((s.upd k (fun ms => { ms with mess := false })).msg m').fin
           rw [St.msg_upd]; split
           · rename_i he; subst he; exact h0
           · exact h0
+        · intro m' hc; simp at hc
         · intro m' hc; simp at hc
       · cases hacc
     · cases hacc
@@ -469,8 +451,9 @@ theorem step_inv (cfg : Cfg) (s s' : St) (e : Ev) (hinv : Inv cfg s) (hacc : acc
       · rename_i hk; subst hk; cases hacc
         refine inv_upd cfg s k todoDoneUpd _
           (fun k' => by show (s.upd k todoDoneUpd).msg k' = _; exact St.msg_upd s k k' _) hinv
-          (minv_unlinkTodo cfg _ (hinv.msgs k) (hinv.ready k hcl)) ?_ ?_
+          (minv_unlinkTodo cfg _ (hinv.msgs k) (hinv.ready k hcl)) ?_ ?_ ?_
         · intro m' c i hm; simp at hm
+        · intro m' hc; simp at hc
         · intro m' hc; simp at hc
       · cases hacc
     · cases hacc
@@ -479,7 +462,7 @@ theorem step_inv (cfg : Cfg) (s s' : St) (e : Ev) (hinv : Inv cfg s) (hacc : acc
     have key : ∀ (hcl : s.clean.isSome = true), Inv cfg (s.upd m (fun ms => { ms with intd := false })) := by
       intro _
       refine inv_upd cfg s m (fun ms => { ms with intd := false }) _ (fun k => St.msg_upd s m k _) hinv
-        (minv_congr cfg _ _ (hinv.msgs m) rfl rfl rfl rfl rfl rfl rfl rfl rfl rfl rfl rfl rfl rfl rfl) ?_ ?_
+        (minv_congr cfg _ _ (hinv.msgs m) (by constructor <;> rfl) rfl rfl rfl rfl rfl) ?_ ?_ ?_
       · intro m' c i hm
         have h0 := hinv.may m' c i hm
         rw [St.msg_upd]; split
@@ -491,6 +474,11 @@ theorem step_inv (cfg : Cfg) (s s' : St) (e : Ev) (hinv : Inv cfg s) (hacc : acc
         · rename_i he; subst he
           obtain ⟨sd, r, a, b, c, d⟩ := h0
           exact ⟨sd, r, a, b, fun c' rs hc' => c c' rs (by cases c' <;> simpa [MsgSt.chan] using hc'), d⟩
+        · exact h0
+      · intro m' hc
+        have h0 := hinv.foop m' hc
+        rw [St.msg_upd]; split
+        · rename_i he; subst he; exact h0
         · exact h0
     split at hacc
     · rename_i k hcl
@@ -517,14 +505,14 @@ theorem step_inv (cfg : Cfg) (s s' : St) (e : Ev) (hinv : Inv cfg s) (hacc : acc
           · rename_i sender rcpts htodo
             split at hacc
             · rename_i hg; cases hacc
-              refine ⟨fun k => hinv.msgs k, fun m c i hm => hinv.may m c i hm, ?_⟩
+              refine ⟨fun k => hinv.msgs k, fun m c i hm => hinv.may m c i hm, ?_, fun m' hc => by simp at hc⟩
               intro m' hc
               have hm' : m' = decVal ((bs.drop 5).dropLast) := by
                 have : some (CleanReq.todo (decVal ((bs.drop 5).dropLast))) = some (CleanReq.todo m') := hc
                 cases this; rfl
               subst hm'
               show TodoReady cfg (s.msg (decVal ((bs.drop 5).dropLast)))
-              refine ⟨sender, rcpts, htodo, by rw [hg.1]; rfl, ?_, hg.2.2.2.2.1⟩
+              refine ⟨sender, rcpts, htodo, hg.1, ?_, hg.2.2.2.2.1⟩
               intro c rs hcr
               cases c
               · have : (s.msg (decVal ((bs.drop 5).dropLast))).loc = some rs := hcr
@@ -538,9 +526,15 @@ theorem step_inv (cfg : Cfg) (s s' : St) (e : Ev) (hinv : Inv cfg s) (hacc : acc
             · cases hacc
         · split at hacc
           · split at hacc
-            · cases hacc
-              refine ⟨fun k => hinv.msgs k, fun m c i hm => hinv.may m c i hm, ?_⟩
-              intro m' hc; simp at hc
+            · rename_i hg; cases hacc
+              refine ⟨fun k => hinv.msgs k, fun m c i hm => hinv.may m c i hm, fun m' hc => by simp at hc, ?_⟩
+              intro m' hc
+              have hm' : m' = decVal ((bs.drop 5).dropLast) := by
+                have : some (CleanReq.foop (decVal ((bs.drop 5).dropLast))) = some (CleanReq.foop m') := hc
+                cases this; rfl
+              subst hm'
+              show (s.msg (decVal ((bs.drop 5).dropLast))).todo = none ∧ (s.msg (decVal ((bs.drop 5).dropLast))).info = none
+              exact ⟨by simpa using hg.1, by simpa using hg.2.1⟩
             · cases hacc
           · cases hacc
 
